@@ -67,6 +67,10 @@ def gen(tier, seed, shard, nshards):
     for c in _gc.iter_pdag_cases((3, 4), shard, nshards):
         if c["code"] % 2 == 0:
             yield "embedded-pdag", dict(c, P=9 + c["code"] % 5)
+    # two non-adjacent parents with m common children, m = 255 .. 512 (a count that wraps to 0 in 8-bit arithmetic at 256 and 512)
+    for fk, m in enumerate((255, 256, 257, 512, 256, 512)):
+        if fk % nshards == shard:
+            yield "common-children", {"m": m, "dtype": ("int8", "uint8", "int8", "uint8", "bool", "int16")[fk], "k": fk}
 
 
 def setup(rec):
@@ -92,6 +96,41 @@ def judge(family, case, rec):
     import sempler.utils as U
     from ..monitors import graph_contracts as GC
     tier = rec.tier
+    if family == "common-children":
+        m = case["m"]
+        p = m + 2
+        rng = util.rng_for("C16cc", case["k"])
+        lab = [int(v) for v in rng.permutation(p)]
+        a_, b_ = lab[0], lab[1]
+        A = np.zeros((p, p), dtype=case["dtype"])
+        for v in lab[2:]:
+            A[a_, v] = 1
+            A[b_, v] = 1
+        rec.case(family, case, True, key=("cc", case["k"]))
+        GC.State.rate = 99991        # the outermost results are judged here, by hand (the contract oracle is sized for small graphs)
+        try:
+            ok, M = _call(rec, family, case, "moral_graph", U.moral_graph, A)
+            ok2, V = _call(rec, family, case, "vstructures", U.vstructures, A)
+            ok3, D = _call(rec, family, case, "degrees", U.degrees, A)
+        finally:
+            GC.State.rate = 1
+        if ok:
+            M = np.asarray(M) != 0
+            want = (A != 0) | (A != 0).T
+            want[a_, b_] = want[b_, a_] = True
+            if M.shape != (p, p) or not (M == want).all():
+                rec.violation("C16:moral_graph", family, case, "two parents with %d common children (%s matrix): moral graph %s the edge between them"
+                              % (m, case["dtype"], "lacks" if M.shape == (p, p) and not M[a_, b_] else "is wrong beyond"))
+        if ok2:
+            wantv = set((min(a_, b_), int(c_), max(a_, b_)) for c_ in lab[2:])
+            if set(tuple(int(x) for x in t) for t in V) != wantv:
+                rec.violation("C16:vstructures", family, case, "two parents with %d common children: %d v-structures returned, expected %d" % (m, len(V), m))
+        if ok3:
+            wantd = [m if v in (a_, b_) else 2 for v in range(p)]
+            if [int(x) for x in np.asarray(D).ravel().tolist()] != wantd:
+                rec.violation("C16:degrees", family, case, "degrees of a graph with %d common children are wrong (%s matrix)" % (m, case["dtype"]))
+        rec.count("common-children:judged")
+        return
     if family == "internal":
         out = G.pdag_from_code(case["p"], case["code"])
         if not G.directed_part_acyclic(out):
